@@ -233,6 +233,10 @@ class RepoInterp:
     def generic_call(self, call: ast.Call, fname: Optional[str], fval: Optional[V], args: List[V], kwargs: Dict[str, V], st: State) -> Optional[V]:
         meth = call.func.attr if isinstance(call.func, ast.Attribute) else None
         it = self.interp
+        if fname in ("all", "any") and len(args) == 1:
+            seq = it.iterate(args[0], st)
+            if seq is not None and all(isinstance(x, K) for x in seq):
+                return K((all if fname == "all" else any)(bool(x.v) for x in seq))
         if meth == "join" and isinstance(fval, K) and isinstance(fval.v, str) and len(args) == 1:
             seq = it.iterate(args[0], st)
             if seq is not None and all(isinstance(x, K) and isinstance(x.v, str) for x in seq):
